@@ -728,6 +728,7 @@ def b_bytes(ex, a, k, mutable=False):
         return SBytes.concrete(b'', mutable)
     v = a[0]
     if isinstance(v, SBytes):
+        v.commit()
         return SBytes(v.length, v._at, mutable, conc=v.conc)
     if isinstance(v, bool):
         v = int(v)
